@@ -394,16 +394,16 @@ def noInversion (tr dr : List (Option Rat)) : Bool :=
   (pairs (tr.zip dr)).all (fun p =>
     !((rateLt p.1.1 p.2.1 && rateLt p.2.2 p.1.2) || (rateLt p.2.1 p.1.1 && rateLt p.1.2 p.2.2)))
 
-theorem pairs_map' {α β : Type} (f : α → β) : ∀ (l : List α), pairs (l.map f) = (pairs l).map (fun p => (f p.1, f p.2))
+theorem pairs_mapped {α β : Type} (f : α → β) : ∀ (l : List α), pairs (l.map f) = (pairs l).map (fun p => (f p.1, f p.2))
   | [] => rfl
   | x :: t => by
-    simp only [List.map_cons, pairs, List.map_append, List.map_map, pairs_map' f t]
+    simp only [List.map_cons, pairs, List.map_append, List.map_map, pairs_mapped f t]
     rfl
 
 theorem ranksPossible_rates (t d : List (String × Row)) :
     ranksPossible t d = noInversion (t.map (fun p => rate p.2)) (d.map (fun p => rate p.2)) := by
   unfold ranksPossible noInversion
-  rw [List.zip_map, pairs_map', List.all_map]
+  rw [List.zip_map, pairs_mapped, List.all_map]
   rfl
 
 /-- **Ranking the labels by target rate gives compatible orders on both samples**: for a grouping that passed the dev tests,
